@@ -205,6 +205,8 @@ func c24CheckStream(tb ev.TB, rec *ev.Rec, stream []byte, segs []int, gen string
 				key = "first-line-ws-only"
 			case ref.hasNote("first-line-ws"):
 				key = "first-line-ws"
+			case ref.hasNote("body-trailer-first-line-ws-only"):
+				key = "trailer-ws-only-first-line"
 			case len(ref.Notes) > 0:
 				key = ref.Notes[0] + ":" + kind
 			}
@@ -403,6 +405,10 @@ func (g *c24Gen) chunkedEnc(p []byte) []byte {
 	b.WriteString("0\r\n")
 	if g.chance("trailer", 8) {
 		g.feat("body:trailer")
+		if g.chance("trailer-ws", 5) {
+			g.feat("body:trailer-first-line-ws")
+			b.WriteString(g.pick("trailerws", " \r\n", "\t\r\n", " X-U: w\r\n"))
+		}
 		b.WriteString("X-T: v\r\n")
 	}
 	b.WriteString("\r\n")
@@ -639,6 +645,7 @@ var c24Seeds = []string{
 	"POST / HTTP/1.1\r\nHost: h\r\nContent-Length: 10\r\n\r\nshort",
 	"GET / HTTP/1.1\r\nHost: h\r\n",
 	"GET / HTTP/1.1",
+	"GET /C HTTP/1.0\r\n  ",
 	"",
 }
 
